@@ -853,6 +853,10 @@ def canon_adapter_value(rt, val):
         raw = [c[1] for c in inner[1]]
         # no NUL; biased to separators incl. consecutive ones (native spelling must be kept verbatim)
         chars = [PATH_CHARS[x % len(PATH_CHARS)] for x in raw]
+        if a == 'dirent':
+            # constructing a directory_entry asks the file system about the path: one beyond PATH_MAX / NAME_MAX makes the
+            # constructor throw (ENAMETOOLONG) before anything is serialized
+            chars = chars[:200]
         if len(chars) >= 3 and raw[0] % 3 == 0:
             chars[1] = chars[2] = ord('/')
         pv = ('t', [('q', [('n', c) for c in chars])])
